@@ -562,7 +562,8 @@ where
         }
 
         let mut escape: Option<Escape> = None;
-        // Whether any byte of the current argument (quotes included) has been seen.
+        // Whether the current argument has begun: a quote was opened or a byte
+        // was taken (a backslash alone quotes nothing).
         let mut in_argument = false;
         let mut i = 0;
         loop {
@@ -595,25 +596,30 @@ where
                 i = 0;
             }
 
-            if escape.is_some() || !is_separator(pending[i]) {
-                in_argument = true;
-            }
             match (&escape, pending[i]) {
                 (Some(Escape::Quote(quote)), c) if c == *quote => escape = None,
                 (Some(Escape::Quote(_)), c) => result.push(c),
                 (Some(Escape::Slash), c) => {
                     result.push(c);
+                    in_argument = true;
                     escape = None;
                 }
-                (None, c @ (b'"' | b'\'')) => escape = Some(Escape::Quote(c)),
+                (None, c @ (b'"' | b'\'')) => {
+                    in_argument = true;
+                    escape = Some(Escape::Quote(c));
+                }
                 (None, b'\\') => escape = Some(Escape::Slash),
                 (None, c) if is_separator(c) => {
-                    if !result.is_empty() {
+                    // '' and "" are arguments too.
+                    if in_argument {
                         terminated_by_newline = c == b'\n';
                         break;
                     }
                 }
-                (None, c) => result.push(c),
+                (None, c) => {
+                    result.push(c);
+                    in_argument = true;
+                }
             }
 
             i += 1;
